@@ -32,6 +32,25 @@ type adversary struct {
 	fz     *fuzzer
 	seen   map[hotstuff.View]*hotstuff.Block // proposals of honest leaders seen by a Byzantine replica, by view
 	ll     *lockless
+	fh     *fhsHide
+}
+
+// fhsHide is a directed attack on Fast-HotStuff with aggregate QCs ("a certified chain nobody reports"): the Byzantine
+// replica Z leads views 1-3 and 5 onwards, sends only genuine certificates built from the honest votes it was sent,
+// and never sends a timeout. Every view ends by timeout (the honest replicas' timers).
+//
+//	view 1  Z proposes B1 to all; the votes come to Z (leader of view 2)
+//	view 2  Z proposes B2 (certificate for B1) to all
+//	view 3  Z proposes B3 (certificate for B2) to A and B only: they commit B1
+//	view 4  the honest leader A proposes on the aggregate of the honest timeouts of view 3
+//	view 5+ Z certifies A's block, proposes two more blocks on top of it: everybody commits A's block
+//
+// If the honest replicas' timeouts of view 3 do not report the certificates they have seen, A's block extends
+// genesis, and A and B commit it after B1.
+type fhsHide struct {
+	z, a, b, c hotstuff.ID
+	phase      int
+	blk        map[string]*hotstuff.Block
 }
 
 // lockless is a directed attack on the lock ("vote without being able to lock"): the Byzantine replica Z leads every
@@ -66,6 +85,15 @@ func newAdversary(w *World) *adversary {
 			}
 			a.ll = ll
 			w.after(time.Millisecond, "lockless", func() { a.locklessStep() })
+		}
+		if b.Kind == "script" && has(b.Acts, "fhshide") && w.plan.N == 4 && a.fh == nil {
+			fh := &fhsHide{z: hotstuff.ID(b.ID), blk: map[string]*hotstuff.Block{}}
+			fh.a, fh.b, fh.c = hotstuff.ID(w.plan.knob("fhA", 0)), hotstuff.ID(w.plan.knob("fhB", 0)), hotstuff.ID(w.plan.knob("fhC", 0))
+			if fh.a == 0 || fh.b == 0 || fh.c == 0 {
+				continue
+			}
+			a.fh = fh
+			w.after(time.Millisecond, "fhshide", func() { a.fhsHideStep() })
 		}
 	}
 	w.hooks.onHandle = append(w.hooks.onHandle, func(nd *Node, ev any) {
@@ -231,6 +259,90 @@ func (a *adversary) locklessStep() {
 	}
 }
 
+func (a *adversary) fhsHideStep() {
+	w, fh := a.w, a.fh
+	if w.ended || w.viol != nil || fh.phase > 6 {
+		return
+	}
+	defer w.after(500*time.Microsecond, "fhshide", func() { a.fhsHideStep() })
+	nd := w.primary(int(fh.z))
+	if nd == nil || nd.crashed {
+		return
+	}
+	honest := []hotstuff.ID{fh.a, fh.b, fh.c}
+	allIn := func(v hotstuff.View) bool {
+		for _, id := range honest {
+			if x := w.primary(int(id)); x == nil || x.states.View() < v {
+				return false
+			}
+		}
+		return true
+	}
+	mk := func(name string, parent *hotstuff.Block, qc hotstuff.QuorumCert, view hotstuff.View) *hotstuff.Block {
+		a.ctr++
+		batch := &clientpb.Batch{Commands: []*clientpb.Command{{ClientID: 7400, SequenceNumber: a.ctr, Data: []byte(name)}}}
+		b := hotstuff.NewBlock(parent.Hash(), qc, batch, view, fh.z)
+		w.reg.add(b, nd)
+		fh.blk[name] = b
+		return b
+	}
+	propose := func(b *hotstuff.Block, to ...hotstuff.ID) {
+		for _, id := range to {
+			a.sendTo(nd, id, "propose", hotstuff.ProposeMsg{ID: fh.z, Block: b})
+		}
+	}
+	// next: once every honest replica is in view, certify prev from the votes Z was sent and propose on top of it
+	next := func(prevName, name string, view hotstuff.View, to ...hotstuff.ID) bool {
+		if !allIn(view) {
+			return false
+		}
+		prev := fh.blk[prevName]
+		qc, ok := a.certify(nd, prev)
+		if !ok {
+			return false
+		}
+		propose(mk(name, prev, qc, view), to...)
+		return true
+	}
+	g := hotstuff.GetGenesis()
+	switch fh.phase {
+	case 0:
+		propose(mk("B1", g, hotstuff.NewQuorumCert(nil, 0, g.Hash()), 1), honest...)
+		fh.phase = 1
+		a.fired("fhshide")
+	case 1:
+		if next("B1", "B2", 2, honest...) {
+			fh.phase = 2
+		}
+	case 2:
+		if next("B2", "B3", 3, fh.a, fh.b) {
+			fh.phase = 3
+		}
+	case 3:
+		// the honest leader's block of view 4
+		b4 := a.seen[4]
+		if b4 == nil {
+			return
+		}
+		fh.blk["A4"] = b4
+		if b4.Parent() != fh.blk["B3"].Hash() && b4.Parent() != fh.blk["B2"].Hash() {
+			w.probe("attack:fhshide-honest-leader-forks-below-certified-chain")
+		}
+		fh.phase = 4
+	case 4:
+		if next("A4", "B5", 5, honest...) {
+			fh.phase = 5
+		}
+	case 5:
+		if next("B5", "B6", 6, honest...) {
+			fh.phase = 6
+		}
+	case 6:
+		w.probe("attack:fhshide-completed")
+		fh.phase = 7
+	}
+}
+
 func (a *adversary) learnQC(qc hotstuff.QuorumCert) {
 	if qc.Signature() != nil && len(a.qcs) < 4096 {
 		a.qcs = append(a.qcs, qc)
@@ -379,6 +491,35 @@ func relabelSig(sig hotstuff.QuorumSignature, n int) hotstuff.QuorumSignature {
 		return out
 	}
 	return nil
+}
+
+// relabelBLS keeps the aggregate signature point and names another set of as many signers in the bit field.
+func relabelBLS(sig hotstuff.QuorumSignature, n int) hotstuff.QuorumSignature {
+	s, ok := sig.(*crypto.BLS12AggregateSignature)
+	if !ok {
+		return nil
+	}
+	var in, out []hotstuff.ID
+	for id := 1; id <= n; id++ {
+		if s.Participants().Contains(hotstuff.ID(id)) {
+			in = append(in, hotstuff.ID(id))
+		} else {
+			out = append(out, hotstuff.ID(id))
+		}
+	}
+	if len(in) == 0 || len(out) == 0 {
+		return nil
+	}
+	var bf crypto.Bitfield
+	for _, id := range in[1:] {
+		bf.Add(id)
+	}
+	bf.Add(out[0])
+	r, err := crypto.RestoreBLS12AggregateSignature(s.ToBytes(), bf)
+	if err != nil {
+		return nil
+	}
+	return r
 }
 
 // permuteSig keeps the signer set and the signature bytes in place but rotates the signer labels by one entry.
@@ -1103,7 +1244,18 @@ func (a *adversary) swapInAggregate(nd *Node, agg hotstuff.AggregateQC) (hotstuf
 	}
 	old := qcs[victim]
 	var bad hotstuff.QuorumSignature
-	if old.Signature() != nil {
+	if old.Signature() != nil && a.chance(0.5) {
+		// labels only: the same signature bytes under other signers' names. Whatever the victim signed over the bytes of
+		// its entry, it did not attest a certificate signed by these replicas
+		if bad = permuteSig(old.Signature()); bad == nil {
+			bad = relabelBLS(old.Signature(), w.plan.N)
+		}
+		if bad != nil {
+			a.fired("aggswap-labels-only")
+		}
+	}
+	if bad != nil {
+	} else if old.Signature() != nil {
 		if bad = truncSig(old.Signature(), 1); bad == nil {
 			bad = relabelSig(old.Signature(), w.plan.N)
 		}
@@ -1676,6 +1828,21 @@ func (a *adversary) onFetch(peer, asker *Node, h hotstuff.Hash) *hotstuff.Block 
 	// a look-alike: same view and parent if the real block is known, different content
 	real := a.w.reg.get(h)
 	var lie *hotstuff.Block
+	if real != nil && real.QuorumCert().Signature() != nil && mix(a.w.plan.Inner, 0x72656c62, a.ctr)%2 == 0 {
+		// the block that was asked for, in every byte that is signed or hashed - but the certificate it embeds names
+		// other replicas as its signers
+		ps := permuteSig(real.QuorumCert().Signature())
+		if ps == nil {
+			ps = relabelBLS(real.QuorumCert().Signature(), a.w.plan.N)
+		}
+		if ps != nil {
+			lie = hotstuff.NewBlock(real.Parent(), hotstuff.NewQuorumCert(ps, real.QuorumCert().View(), real.QuorumCert().BlockHash()), real.Commands(), real.View(), real.Proposer())
+			lie.SetTimestamp(real.Timestamp())
+			a.fired("liefetch-relabelled-certificate")
+			a.lies[h] = lie
+			return lie
+		}
+	}
 	if real != nil {
 		lie = hotstuff.NewBlock(real.Parent(), real.QuorumCert(), &clientpb.Batch{Commands: []*clientpb.Command{{ClientID: 7000, SequenceNumber: a.ctr, Data: []byte("lie")}}}, real.View(), real.Proposer())
 	} else {
